@@ -1,5 +1,7 @@
 package luagen
 
+import "verifh/lib"
+
 // Wave-5 shapes of C04 (metamethod selection). Three families:
 //
 //   rawOpsMatrix     rawequal / rawget / rawset next to the handler-honouring operators on pairs of
@@ -23,6 +25,27 @@ func (g *Gen) w5MetaC04(d int) []Stmt {
 		return g.chainBoundary(d)
 	}
 	return g.udEventMatrix(d)
+}
+
+// W5MetaC04Program: a small stand-alone program made only of wave-5 C04 shapes (used by cmd/c04 as a
+// generation mode of its own, so that every run holds a fixed share of them whatever the mix does).
+func W5MetaC04Program(r *lib.Rand) []Stmt {
+	g := NewGen(r, CoreFeatures())
+	g.push()
+	var out []Stmt
+	switch r.Pick(30, 40, 30) {
+	case 0:
+		out = g.rawOpsMatrix(2)
+		if r.Bool() {
+			out = append(out, g.rawOpsMatrix(2)...)
+		}
+	case 1:
+		out = g.chainBoundary(2)
+	default:
+		out = g.udEventMatrix(2)
+	}
+	g.pop()
+	return out
 }
 
 func pcallOf(body ...Stmt) Expr { return call("pcall", &Func{Body: body}) }
@@ -265,9 +288,11 @@ func (g *Gen) udEventMatrix(d int) []Stmt {
 		{"__metatable", []Expr{str("locked"), &False{}}[g.R.Intn(2)]},
 	}
 	items := []TItem{}
+	has := map[string]bool{}
 	for _, e := range evs {
 		if g.R.Intn(10) < 7 {
 			items = append(items, TItem{Kind: 1, Name: e.name, E: e.f})
+			has[e.name] = true
 		}
 	}
 	p := func(es ...Expr) Stmt {
@@ -284,7 +309,7 @@ func (g *Gen) udEventMatrix(d int) []Stmt {
 	cmp := []string{"<", "<=", ">", ">="}
 	c1, c2 := cmp[g.R.Intn(4)], cmp[g.R.Intn(4)]
 	out := []Stmt{local1(mt, &Table{Items: items}), local1(u, call("newud", v(mt))), local1(w, call("newud", v(mt))), local1(t, call("setmetatable", &Table{}, v(mt)))}
-	out = append(out,
+	probes := []Stmt{
 		pv(bin(op, v(u), g.litInt())), pv(bin(op, g.litInt(), v(u))), pv(bin(op, v(u), v(w))), pv(bin(op, v(t), v(u))), pv(bin(op, v(u), str("s"))),
 		pv(&Un{Op: "-", A: v(u)}), pv(&Un{Op: "#", A: v(u)}),
 		pv(bin("==", v(u), v(w))), pv(bin("~=", v(u), v(t))), p(bin("==", v(u), v(u)), bin("==", v(u), num(1)), call("rawequal", v(u), v(w))),
@@ -292,7 +317,18 @@ func (g *Gen) udEventMatrix(d int) []Stmt {
 		pv(&Call{F: v(u), Args: []Expr{num(1), num(2)}}), pv(&Call{F: &Paren{E: &Func{Body: []Stmt{ret(&Call{F: v(u), Args: []Expr{str("tail")}})}}}}),
 		pv(idx(v(u), "fld")), pv(&Index{E: v(u), K: num(3)}), p(&Meth{O: v(u), M: "fld"}),
 		emit(pcallOf(set(idx(v(u), "fld"), num(1))), pcallOf(set(&Index{E: v(u), K: num(3)}, num(2)))),
-		pv(call("type", call("tostring", v(u)))), pv(call("getmetatable", v(u))), p(call("setmetatable", v(u), &Table{}), call("rawget", v(u), str("fld"))),
-		pv(call("type", v(u))))
+		pv(call("getmetatable", v(u))), p(call("setmetatable", v(u), &Table{}), call("rawget", v(u), str("fld"))),
+		pv(call("type", v(u)))}
+	if has["__tostring"] { // the default text of a userdata holds its address: not compared
+		probes = append(probes, pv(call("tostring", v(u))))
+	}
+	// a random dozen of the probes, in order (every probe is a closure: program size)
+	keep := 12
+	for i, st := range probes {
+		if g.R.Intn(len(probes)-i) < keep {
+			out = append(out, st)
+			keep--
+		}
+	}
 	return out
 }
